@@ -37,10 +37,42 @@ def main():
         seed = int(os.environ.get("VERIF_SEED", "0"))
     except ValueError:
         seed = 0
-    if a.pid in ENGINE_B:
-        import mir_check  # noqa: E402
-        sys.exit(mir_check.run(a.pid, tier, seed, a))
-    sys.exit(run_kani(a.pid, tier, seed, a))
+    import mir_check  # noqa: E402
+    t0 = time.time()
+    parts = []
+    if registry.for_property(a.pid, tier):
+        parts.append(run_kani(a.pid, tier, seed, a))
+    if mir_check.units_for(a.pid) and not a.only:
+        parts.append(mir_check.run(a.pid, tier, seed, a))
+    if not parts:
+        print(f"no check registered for {a.pid}")
+        sys.exit(2)
+    rc = 1 if any(r == 1 for r, _ in parts) else (2 if any(r == 2 for r, _ in parts) else 0)
+    if not a.no_evidence:
+        merge_and_write(a.pid, tier, seed, [e for _, e in parts], time.time() - t0)
+    sys.exit(rc)
+
+
+def merge_and_write(pid, tier, seed, evs, wall):
+    ev = evs[0]
+    for other in evs[1:]:
+        c, o = ev["coverage"], other["coverage"]
+        c["evaluations"] = c.get("evaluations", 0) + o.get("evaluations", 0)
+        c["distinct_nontrivial"] = c.get("distinct_nontrivial", 0) + o.get("distinct_nontrivial", 0)
+        c["rule"] = "Engine A (Kani): " + c.get("rule", "") + " || Engine B (mirsmt): " + o.get("rule", "")
+        c["samples"] = c.get("samples", []) + o.get("samples", [])
+        c["functions_encoded"] = c.get("functions_encoded", []) + [f["function"] if isinstance(f, dict) else f for f in o.get("functions_encoded", [])]
+        c["queries_discharged"] = c.get("queries_discharged", 0) + o.get("queries_discharged", 0)
+        c["engine_b"] = {k: o[k] for k in ("obligations", "discharged_unsat_both_solvers", "solver_time_s", "mir_dump_cmd", "bounds", "outside_bounds", "engine") if k in o}
+        ev["assumptions"] = ev.get("assumptions", []) + other.get("assumptions", [])
+        ev["violations"] = ev.get("violations", 0) + other.get("violations", 0)
+        for k in ("unrealised_candidates", "inconclusive"):
+            if other.get(k):
+                ev[k] = ev.get(k, []) + other[k]
+    ev["wall_s"] = round(wall, 1)
+    os.makedirs(os.path.join(VERIF, "evidence"), exist_ok=True)
+    with open(os.path.join(VERIF, "evidence", f"{pid}.json"), "w") as f:
+        json.dump(ev, f, indent=1)
 
 
 def run_kani(pid, tier, seed, a):
@@ -50,7 +82,7 @@ def run_kani(pid, tier, seed, a):
         hs = [h for h in hs if a.only in h["name"]]
     if not hs:
         print(f"no harness registered for {pid}")
-        return 2
+        return 2, {"property_id": pid, "tier": tier, "seed": seed, "level": "model_checking", "coverage": {"evaluations": 0, "distinct_nontrivial": 0, "samples": []}, "wall_s": 0}
     # the seed only rotates scheduling order; no verdict depends on it
     k = seed % len(hs)
     hs = hs[k:] + hs[:k]
@@ -97,8 +129,7 @@ def run_kani(pid, tier, seed, a):
                 r["why"] = "counterexample did not reproduce natively: " + rp.get("note", "")
                 inconclusive.append((h, r))
 
-    if not a.no_evidence:
-        write_evidence(pid, tier, seed, results, violations, inconclusive, known_hits, time.time() - t0)
+    ev = build_evidence(pid, tier, seed, results, violations, inconclusive, known_hits, time.time() - t0)
 
     for h, r, kf in known_hits:
         print(f"KNOWN-FINDING: property={pid} {kf['what']}")
@@ -109,16 +140,16 @@ def run_kani(pid, tier, seed, a):
             for f in r["failed"][:3]:
                 print(f"  failed check in {r['short']}: {f['desc']} @ {f['loc']}")
             print(f"VIOLATION property={pid} replay={path}")
-        return 1
+        return 1, ev
     if inconclusive:
         for h, r in inconclusive:
             print(f"INCONCLUSIVE property={pid} harness={r['short']} reason={r['why']} log={r['log']}")
-        return 2
-    print(f"OK property={pid} tier={tier} harnesses={len(results)} wall={time.time()-t0:.0f}s")
-    return 0
+        return 2, ev
+    print(f"OK property={pid} tier={tier} engine=kani harnesses={len(results)} wall={time.time()-t0:.0f}s")
+    return 0, ev
 
 
-def write_evidence(pid, tier, seed, results, violations, inconclusive, known_hits, wall):
+def build_evidence(pid, tier, seed, results, violations, inconclusive, known_hits, wall):
     holds = [(h, r) for h, r in results if r["verdict"] == "holds"]
     twins = [(h, r) for h, r in results if r["verdict"] == "twin_ok"]
     n_checks = sum(r["n_checks"] for _, r in results)
@@ -171,9 +202,7 @@ def write_evidence(pid, tier, seed, results, violations, inconclusive, known_hit
         "inconclusive": [f"{r['short']}: {r['why']}" for _, r in inconclusive],
         "known_findings_hit": [kf["what"] for _, _, kf in known_hits],
     }
-    os.makedirs(os.path.join(VERIF, "evidence"), exist_ok=True)
-    with open(os.path.join(VERIF, "evidence", f"{pid}.json"), "w") as f:
-        json.dump(ev, f, indent=1)
+    return ev
 
 
 def registry_outside(pid):
